@@ -130,7 +130,14 @@ func (i *interpreter) globalAddr(g *ssa.Global) *value {
 			}
 		}
 		i.pkgInit[pkg] = 1
+		var s0 int64
+		if i.st != nil {
+			s0 = i.st.steps
+		}
 		i.runPackageInit(pkg)
+		if i.st != nil && initDebug {
+			fmt.Fprintf(os.Stderr, "init %s: %d steps\n", pkg.Pkg.Path(), i.st.steps-s0)
+		}
 		i.pkgInit[pkg] = 2
 	}
 	if r, ok := i.globals[g]; ok {
@@ -141,10 +148,10 @@ func (i *interpreter) globalAddr(g *ssa.Global) *value {
 	return &cell
 }
 
+var initDebug = os.Getenv("GOSYM_INITDEBUG") != ""
+
 // packages whose explicit init#N functions are executed as well
-var runExplicitInits = map[string]bool{
-	"cosmossdk.io/math": true,
-}
+var skipExplicitInits = map[string]bool{}
 
 // runPackageInit interprets the synthetic init of pkg: only the package-level
 // variable initialisers. Calls to other packages' init functions are skipped
@@ -187,7 +194,7 @@ func (i *interpreter) runPackageInit(pkg *ssa.Package) {
 						continue // other package's init: lazy
 					}
 					if strings.HasPrefix(callee.Name(), "init#") && callee.Pkg == pkg {
-						if !runExplicitInits[pkg.Pkg.Path()] {
+						if skipExplicitInits[pkg.Pkg.Path()] {
 							continue
 						}
 					}
@@ -659,6 +666,12 @@ func callSSA(i *interpreter, caller *frame, callpos token.Pos, fn *ssa.Function,
 	}
 	if fn.Parent() == nil {
 		name := fn.String()
+		if rf := lookupReplacement(i.prog, name); rf != nil {
+			if i.st != nil && i.inInit == 0 {
+				i.st.noteStub(name + " => model." + rf.Name())
+			}
+			return callSSA(i, caller, callpos, rf, args, nil)
+		}
 		if ext := externals[name]; ext != nil {
 			if i.st != nil && i.inInit == 0 {
 				i.st.noteStub(name)
